@@ -5,17 +5,21 @@ Firmware (src/target/firmware/layer1/mframe_sched.c):
   * `mframe_schedule_set(task_id)` – the trigger arithmetic, statement by statement,
     with the C integer widths (`fn : uint32_t`, `modulo frame_nr flags : uint16_t`,
     `frame_offset : uint8_t`, `p3 : uint16_t`);
-  * `mframe_schedule()` – the loop over the 32 task bits.
-  The task tables, `sched_set_for_task[]`, SCHEDULE_AHEAD/LATENCY and MF_F_* are
-  regenerated (`Gen/FwMframe.lean`).  The enable/disable latching through
-  `safe_fn`/`tasks_tgt` is not part of the mapping and is not modelled (`tasks` is the
-  active task bitmap).
+  * `mframe_schedule()` – the loop over the 32 task bits (`scheduleTasks`, `mframeSchedule`
+    on a given active bitmap), and the whole runtime on `struct mframe_scheduler`:
+    `mframe_enable / mframe_disable / mframe_set / mframe_reset`, the `tasks_tgt → tasks`
+    latch (`nothingInTheWay`, `latch`) and the `safe_fn` bookkeeping of
+    `mframe_schedule_set` (`safeUpdate`, `scheduleItemsSt`, `mframeScheduleSt`); what
+    `tdma_schedule_set` returns is the environment (`RvOf`).
+  The task tables, `sched_set_for_task[]`, SCHEDULE_AHEAD/LATENCY, MF_F_* and GSM_MAX_FN
+  are regenerated (`Gen/FwMframe.lean`).
 
 trxcon (src/host/trxcon/src/sched_mframe.c, sched_trx.c):
   * `l1sched_mframe_layout(config, tn)`;
   * the frame lookup `frames[fn % period]` of `l1sched_pull_burst` (sched_trx.c) and of
     the Downlink path – partial: period 0 divides by zero, `frames == NULL` is a NULL
-    dereference, an index past the table leaves the table.
+    dereference, an index past the table leaves the table.  The functions of sched_trx.c
+    that use it are modelled in `Model/TrxSched.lean`.
   `layouts[]` and every `frame_*[]` table are regenerated (`Gen/TrxconMframe.lean`).
 -/
 import OsmoVerif.Gen.FwMframe
